@@ -63,6 +63,10 @@ package agent
 //@   guard-call relayid:   "AgentInstance#3" arg(1) == AgentHdr.AgentID
 //@   guard-call relaykey:  "DecryptBuffer" sameslice(arg(1), PivotAgent.Encryption.AESKey) && sameslice(arg(2), PivotAgent.Encryption.AESIv)
 //@   guard-call relaygate: "TaskDispatch" arg(0) == PivotAgent && arg(0) != nil
+// the relayed body is decrypted once, before its first callback is read, however many callbacks it carries
+//@   guard-call relayonce: "DecryptBuffer" iter__ == 0
+//@   loop "for AgentHdr.Data.CanIRead(([]parser.ReadType{parser.ReadInt32, parser.ReadInt32}))"
+//@     invariant once: iter__ > 0 ==> !first_iter
 // C09: a disconnect callback detaches, from the reporting agent, the child whose id the callback carries
 //@   guard-call unlink: "LinkRemove" arg(1) == a && arg(2) == lastresult(AgentInstance) && lastarg(AgentInstance, 1) == lastresult(ParseInt32)
 // C07: a file chunk / close callback names the transfer by the big-endian id in its
